@@ -321,6 +321,66 @@ func c10(repo string, out *fg.Out) error {
 		rescans = false
 	}
 
+	// --- the predicate text reaching the SQL builders is req.Where VERBATIM: nothing assigns to
+	// req.Where / req / whereClause, and every hop passes the same identifier on.
+	verbatim := true
+	why := ""
+	assigns := func(fn *ast.FuncDecl, names ...string) {
+		ast.Inspect(fn.Body, func(x ast.Node) bool {
+			as, ok := x.(*ast.AssignStmt)
+			if !ok {
+				return true
+			}
+			for _, l := range as.Lhs {
+				t := norm(f.Text(l))
+				for _, n := range names {
+					if t == n {
+						verbatim = false
+						why = fn.Name.Name + ": assignment to " + t
+					}
+				}
+			}
+			return true
+		})
+	}
+	assigns(fd3, "req.Where", "req")
+	for _, want := range []string{"h.validateWhereClause(req.Where)", "h.findAffectedFiles(ctx, req.Database, req.Measurement, req.Where)",
+		"h.rewriteFileWithoutDeletedRows(ctx, f.path, f.relativePath, req.Where)", "c.BodyParser(&req)"} {
+		if !strings.Contains(hb, want) {
+			verbatim, why = false, "handleDelete: `"+want+"` not found"
+		}
+	}
+	for _, fn := range []string{"findAffectedFiles", "countMatchingRowsInFiles", "countMatchingRowsIndividually", "rewriteFileWithoutDeletedRows", "rewriteLocalFile", "rewriteS3File"} {
+		fdx, err := get(fn)
+		if err != nil {
+			return err
+		}
+		assigns(fdx, "whereClause")
+		hasParam := false
+		for _, pl := range fdx.Type.Params.List {
+			for _, nm := range pl.Names {
+				if nm.Name == "whereClause" {
+					hasParam = true
+				}
+			}
+		}
+		if !hasParam {
+			verbatim, why = false, fn+": no parameter named whereClause"
+		}
+	}
+	fb := norm(f.Text(faf.Body))
+	for _, want := range []string{"h.countMatchingRowsIndividually(ctx, parquetFiles, whereClause)"} {
+		if !strings.Contains(fb, want) {
+			verbatim, why = false, "findAffectedFiles: `"+want+"` not found"
+		}
+	}
+	rb := norm(f.Text(fdr.Body))
+	for _, want := range []string{"h.rewriteLocalFile(ctx, queryPath, relativePath, whereClause, rowsBefore, rowsAfter)", "h.rewriteS3File(ctx, queryPath, relativePath, whereClause, rowsBefore, rowsAfter)"} {
+		if !strings.Contains(rb, want) {
+			verbatim, why = false, "rewriteFileWithoutDeletedRows: `"+want+"` not found"
+		}
+	}
+
 	w := &out.Lean
 	fmt.Fprintf(w, "namespace Arc.Generated.C10\n")
 	fmt.Fprintf(w, "/-- How a keep filter treats the three-valued result of the user predicate. -/\n")
@@ -339,7 +399,10 @@ func c10(repo string, out *fg.Out) error {
 	fmt.Fprintf(w, "def affectedScanCoversAllFiles : Bool := %s\n", bl(scanAll))
 	fmt.Fprintf(w, "/-- handleDelete: unconditional `affected, err := h.findAffectedFiles(…)` for dry AND confirmed requests, dry-run branch touches no handler state -/\n")
 	fmt.Fprintf(w, "def confirmRescansStorage : Bool := %s\n", bl(rescans))
+	fmt.Fprintf(w, "/-- the WHERE text used by the scan, the count and the rewrite is req.Where as parsed from the body, untransformed%s -/\n", map[bool]string{true: "", false: " — VIOLATED: " + why}[verbatim])
+	fmt.Fprintf(w, "def whereTextVerbatim : Bool := %s\n", bl(verbatim))
 	fmt.Fprintf(w, "end Arc.Generated.C10\n")
+	out.JSON["where_text_verbatim"] = verbatim
 	out.JSON["affected_scan"] = map[string]any{"covers_all": scanAll, "shape": scanShape, "chunk": chunk}
 	out.JSON["confirm_rescans_storage"] = rescans
 	for k, v := range facts {
